@@ -811,6 +811,40 @@ fn hop(ctx: &Ctx, case: &Case, doc: &IotaDocument, from: &str, to: &str, stage: 
   None
 }
 
+/// The methods, embedded methods, references to present methods and services of `tree`, put into a fresh document one
+/// by one through `insert_method` / `attach_method_relationship` / `insert_service`. `None` if an insert is refused.
+fn build_via_api(tree: &Value, did: &str) -> Option<IotaDocument> {
+  use identity_document::service::Service;
+  use identity_verification::{MethodRelationship, MethodScope, VerificationMethod};
+  let mut doc = IotaDocument::new_with_id(IotaDID::parse(did).ok()?);
+  let d = tree.get("doc")?;
+  let arr = |k: &str| d.get(k).and_then(|v| v.as_array()).cloned().unwrap_or_default();
+  for m in arr("verificationMethod") {
+    doc.insert_method(VerificationMethod::from_json_value(m).ok()?, MethodScope::VerificationMethod).ok()?;
+  }
+  let rels = [
+    MethodRelationship::Authentication,
+    MethodRelationship::AssertionMethod,
+    MethodRelationship::KeyAgreement,
+    MethodRelationship::CapabilityDelegation,
+    MethodRelationship::CapabilityInvocation,
+  ];
+  for (name, rel) in RELS.iter().zip(rels) {
+    for e in arr(name) {
+      if e.is_object() {
+        doc.insert_method(VerificationMethod::from_json_value(e).ok()?, MethodScope::VerificationRelationship(rel)).ok()?;
+      } else if let Some(u) = e.as_str().and_then(|u| identity_did::DIDUrl::parse(u).ok()) {
+        // (references to methods that are not in the document cannot be made through the API: left out)
+        let _ = doc.attach_method_relationship(&u, rel);
+      }
+    }
+  }
+  for sv in arr("service") {
+    doc.insert_service(Service::from_json_value(sv).ok()?).ok()?;
+  }
+  Some(doc)
+}
+
 fn doc_body(ctx: &Ctx, ch: &mut Chooser) {
   let b = build(ch);
   let case = Case::Doc(ch.seq());
@@ -820,8 +854,17 @@ fn doc_body(ctx: &Ctx, ch: &mut Chooser) {
       if std::env::var_os("C14_DEBUG").is_some() && ch.deviations() <= 2 {
         eprintln!("invalid {:?}: {e}", ch.labelled().iter().filter(|l| !l.contains("=0/")).collect::<Vec<_>>());
       }
-      return out("doc:input-not-a-valid-document");
-    } // trivial early reject (id rules are C04's subject)
+      // The deserialiser refuses the tree (id rules are C04's subject). The same entries may still make a document
+      // through the mutation API, which has its own id rules: if they do, that document exists and the property speaks
+      // about it like about any other — it is packed, unpacked and rebased below.
+      match guard(|| build_via_api(&b.tree, &b.s)) {
+        Ok(Some(d)) => {
+          out("doc:input-refused-by-from_json-but-built-through-the-mutation-api");
+          d
+        }
+        _ => return out("doc:input-not-a-valid-document"),
+      }
+    }
     Ok(Ok(d)) => d,
   };
   shard().distinct.push(Ctx::hash_of(&ch.seq()));
